@@ -28,6 +28,9 @@ CONFIGS = {
                "-fno-sanitize-recover=all", "-D_GLIBCXX_ASSERTIONS",
                "-DVERIF_SAN=1"],
         link=["-fsanitize=address,undefined"]),
+    # race detector: the pure functions called from several threads at once
+    "tsan": dict(cxx="g++", flags=["-O1", "-g", "-fno-omit-frame-pointer", "-fsanitize=thread", "-DVERIF_TSAN=1"],
+                 link=["-fsanitize=thread"]),
 }
 
 EXEC_SOURCES = ["main.cpp", "shims.cpp", "ops_api.cpp", "ops_codec.cpp", "ops_table.cpp"]
